@@ -13,14 +13,14 @@
    [prec K leb a b] := priority a < priority b, or equal priorities and a fired before b.
    [pending_fires t] := the entries fired in t after t's last TSnap (= what the next pass takes). *)
 From Coq Require Import List Arith ZArith Lia Permutation Sorted.
-From Circ Require Import Model.DispatchOrder Proofs.DispatchOrderP.
+From Circ Require Import Model.DispatchOrder Model.DispatchOrderObs Proofs.DispatchOrderP.
 Import ListNotations.
 
 
 (* One pass dispatches exactly the entries queued when it began, in ascending priority value and, for
    equal priority, in fire order: at any moment the dispatches since the last TSnap are a prefix of the
    prec-sorted permutation of the snapshot; [batch s] entries remain (none when the pass is over). *)
-Theorem C02_pass : forall (K : Type) (leb : K -> K -> bool) (hs_of : nat -> list (handler K)), 
+Theorem C02_pass : forall (K : Type) (leb : K -> K -> bool) (hs_of : nat -> nat -> list (handler K)), 
   Total K leb -> Trans K leb -> forall prog s t1 t2, reach K leb hs_of prog s ->
   trace s = t1 ++ TSnap :: t2 -> nosnap K t2 ->
   exists rest, length rest = batch s /\
@@ -29,7 +29,7 @@ Proof. exact pass_sorted. Qed.
 Print Assumptions C02_pass.
 
 (* ids are the positions in the global fire order, so "ictr a < ictr b" in prec means "a fired first" *)
-Theorem C02_fire_order : forall (K : Type) (leb : K -> K -> bool) (hs_of : nat -> list (handler K)), 
+Theorem C02_fire_order : forall (K : Type) (leb : K -> K -> bool) (hs_of : nat -> nat -> list (handler K)), 
   forall prog s, reach K leb hs_of prog s ->
   map ictr (fires (trace s)) = seq 0 (counter s).
 Proof. exact fire_order. Qed.
@@ -38,7 +38,7 @@ Print Assumptions C02_fire_order.
 (* An event fired after a pass began (from a handler at any nesting depth, or from outside) is never
    dispatched before an entry that was queued when that pass began — whatever recursive flushes happen
    in between. *)
-Theorem C02_no_overtake : forall (K : Type) (leb : K -> K -> bool) (hs_of : nat -> list (handler K)), 
+Theorem C02_no_overtake : forall (K : Type) (leb : K -> K -> bool) (hs_of : nat -> nat -> list (handler K)), 
   forall prog s t1 t2 t3 x x', reach K leb hs_of prog s ->
   trace s = t1 ++ TSnap :: t2 ++ TDisp x :: t3 -> In (TFire x') t2 -> ictr x' = ictr x ->
   forall y, In y (pending_fires t1) -> In (TDisp y) t2.
@@ -47,23 +47,23 @@ Print Assumptions C02_no_overtake.
 
 (* no event is dispatched twice; heappop never hits an empty heap (the "decrement first" counter
    always equals the heap size) *)
-Theorem C02_dispatch_once : forall (K : Type) (leb : K -> K -> bool) (hs_of : nat -> list (handler K)), 
+Theorem C02_dispatch_once : forall (K : Type) (leb : K -> K -> bool) (hs_of : nat -> nat -> list (handler K)), 
   forall prog s, reach K leb hs_of prog s ->
   NoDup (map ictr (disps (trace s))).
 Proof. exact disp_once. Qed.
 Print Assumptions C02_dispatch_once.
-Theorem C02_no_crash : forall (K : Type) (leb : K -> K -> bool) (hs_of : nat -> list (handler K)), 
+Theorem C02_no_crash : forall (K : Type) (leb : K -> K -> bool) (hs_of : nat -> nat -> list (handler K)), 
   forall prog s, reach K leb hs_of prog s ->
   crashed s = false /\ batch s = length (heap s).
 Proof. exact no_crash. Qed.
 Print Assumptions C02_no_crash.
 
 (* fire() never runs a handler: the step only appends to the FIFO and logs TFire *)
-Theorem C02_fire_only_queues : forall (K : Type) (leb : K -> K -> bool) (hs_of : nat -> list (handler K)), 
-  forall (s : state K) ctx n p md acts k,
-  stack s = FBody ctx (AFire n p md :: acts) :: k ->
+Theorem C02_fire_only_queues : forall (K : Type) (leb : K -> K -> bool) (hs_of : nat -> nat -> list (handler K)), 
+  forall (s : state K) ctx n p md cs acts k,
+  stack s = FBody ctx (AFire n p md cs :: acts) :: k ->
   exists s', step K leb hs_of s = Some s' /\
-    let x := Build_item p (counter s) n md in
+    let x := Build_item p (counter s) n md cs in
     fifo s' = fifo s ++ [x] /\ heap s' = heap s /\ batch s' = batch s /\ stopped s' = stopped s /\
     stack s' = FBody ctx acts :: k /\ trace s' = trace s ++ [TFire x].
 Proof. exact fire_only_queues. Qed.
@@ -71,21 +71,21 @@ Print Assumptions C02_fire_only_queues.
 
 (* handlers nest only through a handler's own flush(): nesting depth <= number of active
    dispatchEvents loops, each of which was entered by an AFlush action *)
-Theorem C02_no_reentrancy : forall (K : Type) (leb : K -> K -> bool) (hs_of : nat -> list (handler K)), 
+Theorem C02_no_reentrancy : forall (K : Type) (leb : K -> K -> bool) (hs_of : nat -> nat -> list (handler K)), 
   forall prog s, reach K leb hs_of prog s ->
   depth (stack s) <= loops K (stack s).
 Proof. exact depth_le_loops. Qed.
 Print Assumptions C02_no_reentrancy.
 
 (* ... and those loops are exactly the flush() calls entered (TFlushB) and not yet returned (TFlushE) *)
-Theorem C02_depth_le_active_flushes : forall (K : Type) (leb : K -> K -> bool) (hs_of : nat -> list (handler K)),
+Theorem C02_depth_le_active_flushes : forall (K : Type) (leb : K -> K -> bool) (hs_of : nat -> nat -> list (handler K)),
   forall prog s, reach K leb hs_of prog s -> depth (stack s) + nE K (trace s) <= nB K (trace s).
 Proof. exact depth_le_active_flushes. Qed.
 Print Assumptions C02_depth_le_active_flushes.
 
 (* handlers of one event: the invoked ones are, at any time, a prefix of the list sorted by
    descending priority ... *)
-Theorem C02_handlers_prefix : forall (K : Type) (leb : K -> K -> bool) (hs_of : nat -> list (handler K)), 
+Theorem C02_handlers_prefix : forall (K : Type) (leb : K -> K -> bool) (hs_of : nat -> nat -> list (handler K)), 
   forall prog s x, reach K leb hs_of prog s -> In x (disps (trace s)) ->
   exists rem, invs (ictr x) (trace s) ++ rem = map hid (handlers_for K leb hs_of x).
 Proof. exact handlers_prefix. Qed.
@@ -96,20 +96,31 @@ Theorem C02_handlers_sorted : forall (K : Type) (leb : K -> K -> bool),
   StronglySorted (fun a b => leb (hprio b) (hprio a) = true) (sort_desc K leb l).
 Proof. exact handlers_sorted. Qed.
 Print Assumptions C02_handlers_sorted.
+(* an event delivered on several channels: its handler list is the union over the channels
+   ([handlers_chain] = chain(getHandlers(e, c) for c in channels)), every handler ONCE - also one that matches
+   several of the channels - and sorted as a whole by descending priority, whatever channel a handler came from *)
+Theorem C02_handlers_union : forall (K : Type) (leb : K -> K -> bool) (hs_of : nat -> nat -> list (handler K)),
+  Total K leb -> Trans K leb -> forall x, imode x <> MCancel ->
+  let L := handlers_for K leb hs_of x in
+  StronglySorted (fun a b => leb (hprio b) (hprio a) = true) L /\ NoDup (map hid L) /\
+  (forall h, In h L -> In h (handlers_chain K hs_of x)) /\
+  (forall h, In h (handlers_chain K hs_of x) -> In (hid h) (map hid L)).
+Proof. exact handlers_union. Qed.
+Print Assumptions C02_handlers_union.
 (* ... all of them if nobody called stop() ... *)
-Theorem C02_handlers_complete : forall (K : Type) (leb : K -> K -> bool) (hs_of : nat -> list (handler K)), 
+Theorem C02_handlers_complete : forall (K : Type) (leb : K -> K -> bool) (hs_of : nat -> nat -> list (handler K)), 
   forall prog s x, reach K leb hs_of prog s -> In x (disps (trace s)) ->
   In (TDone (ictr x)) (trace s) -> (forall h, ~ In (TStop (ictr x) h) (trace s)) -> imode x <> MPreStop ->
   invs (ictr x) (trace s) = map hid (handlers_for K leb hs_of x).
 Proof. exact handlers_complete. Qed.
 Print Assumptions C02_handlers_complete.
 (* ... and after stop() no further handler runs for that event; the stopping handler is an invoked one *)
-Theorem C02_stop : forall (K : Type) (leb : K -> K -> bool) (hs_of : nat -> list (handler K)), 
+Theorem C02_stop : forall (K : Type) (leb : K -> K -> bool) (hs_of : nat -> nat -> list (handler K)), 
   forall prog s u e h v, reach K leb hs_of prog s ->
   trace s = u ++ TStop e h :: v -> forall h' d, ~ In (TInv e h' d) v.
 Proof. exact no_invoke_after_stop. Qed.
 Print Assumptions C02_stop.
-Theorem C02_stopper_invoked : forall (K : Type) (leb : K -> K -> bool) (hs_of : nat -> list (handler K)), 
+Theorem C02_stopper_invoked : forall (K : Type) (leb : K -> K -> bool) (hs_of : nat -> nat -> list (handler K)), 
   forall prog s e h, reach K leb hs_of prog s ->
   In (TStop e h) (trace s) -> In h (invs e (trace s)).
 Proof. exact stopper_was_invoked. Qed.
@@ -119,19 +130,19 @@ Print Assumptions C02_stopper_invoked.
    an event on which stop() was called from outside before its dispatch gets at most one handler (by
    C02_handlers_prefix: the highest-priority one) — `event.stopped` is only looked at after a handler returned.
    The property's stop clause speaks of a handler calling stop(), so it does not constrain this case. *)
-Theorem C02_cancelled : forall (K : Type) (leb : K -> K -> bool) (hs_of : nat -> list (handler K)),
+Theorem C02_cancelled : forall (K : Type) (leb : K -> K -> bool) (hs_of : nat -> nat -> list (handler K)),
   forall prog s x, reach K leb hs_of prog s -> In x (disps (trace s)) ->
   imode x = MCancel -> invs (ictr x) (trace s) = [].
 Proof. exact cancelled_no_handlers. Qed.
 Print Assumptions C02_cancelled.
-Theorem C02_prestopped : forall (K : Type) (leb : K -> K -> bool) (hs_of : nat -> list (handler K)),
+Theorem C02_prestopped : forall (K : Type) (leb : K -> K -> bool) (hs_of : nat -> nat -> list (handler K)),
   forall prog s x, reach K leb hs_of prog s -> In x (disps (trace s)) ->
   imode x = MPreStop -> length (invs (ictr x) (trace s)) <= 1.
 Proof. exact prestopped_at_most_one. Qed.
 Print Assumptions C02_prestopped.
 
 (* what the executable [run] computes is reachable, so all of the above applies to it *)
-Theorem C02_run_reach : forall (K : Type) (leb : K -> K -> bool) (hs_of : nat -> list (handler K)), 
+Theorem C02_run_reach : forall (K : Type) (leb : K -> K -> bool) (hs_of : nat -> nat -> list (handler K)), 
   forall prog n, reach K leb hs_of prog (run K leb hs_of n (init prog)).
 Proof. exact run_init_reach. Qed.
 Print Assumptions C02_run_reach.
@@ -145,14 +156,14 @@ Proof. split; red; intros; rewrite ?Z.leb_le in *; lia. Qed.
    event 2 with priority -5 during the pass; the priority-3 handler stops event 0, so its priority-0
    handler never runs; event 2 is dispatched in the next pass although its priority value is the smallest *)
 Definition ex_tbl : list (nat * list handlerZ) :=
-  [(0, [Build_handler 0 0%Z []; Build_handler 1 3%Z [AStop]; Build_handler 2 5%Z [AFire 1 (-5)%Z MNormal]]);
+  [(0, [Build_handler 0 0%Z []; Build_handler 1 3%Z [AStop]; Build_handler 2 5%Z [AFire 1 (-5)%Z MNormal [0]]]);
    (1, [Build_handler 3 0%Z []])].
-Definition ex_prog : list (act Z) := [AFire 0 0%Z MNormal; AFire 1 1%Z MNormal; AFlush; AFlush].
-Definition e0 : item Z := Build_item 0%Z 0 0 MNormal.
-Definition e1 : item Z := Build_item 1%Z 1 1 MNormal.
-Definition e2 : item Z := Build_item (-5)%Z 2 1 MNormal.
+Definition ex_prog : list (act Z) := [AFire 0 0%Z MNormal [0]; AFire 1 1%Z MNormal [0]; AFlush; AFlush].
+Definition e0 : item Z := Build_item 0%Z 0 0 MNormal [0].
+Definition e1 : item Z := Build_item 1%Z 1 1 MNormal [0].
+Definition e2 : item Z := Build_item (-5)%Z 2 1 MNormal [0].
 Example C02_ex_trace :
-  trace (runZ ex_tbl 100 ex_prog) =
+  trace (runZ1 ex_tbl 100 ex_prog) =
     [TFire e0; TFire e1; TFlushB] ++ TSnap ::
     [TDisp e0; TInv 0 2 1; TFire e2; TRet 0 2; TInv 0 1 1; TStop 0 1; TRet 0 1; TDone 0;
      TDisp e1; TInv 1 3 1; TRet 1 3; TDone 1; TFlushE; TFlushB; TSnap] ++ TDisp e2 ::
@@ -161,18 +172,18 @@ Proof. vm_compute. reflexivity. Qed.
 Example C02_ex_hyps :
   pending_fires [TFire e0; TFire e1; TFlushB] = [e0; e1] /\
   nosnap Z [TDisp e0; TInv 0 2 1; TFire e2; TRet 0 2] /\
-  stack (runZ ex_tbl 100 ex_prog) = [] /\ crashed (runZ ex_tbl 100 ex_prog) = false.
+  stack (runZ1 ex_tbl 100 ex_prog) = [] /\ crashed (runZ1 ex_tbl 100 ex_prog) = false.
 Proof. vm_compute. auto. Qed.
 (* a nested flush: the handler of event 0 fires event 1 and flushes twice; the first flush finishes the
    running pass (nothing left), the second one dispatches event 1 at depth 2 *)
 Example C02_ex_nested :
-  trace (runZ [(0, [Build_handler 0 0%Z [AFire 1 0%Z MNormal; AFlush; AFlush]]); (1, [Build_handler 1 0%Z []])]
-              100 [AFire 0 0%Z MNormal; AFire 0 0%Z MNormal; AFlush]) =
-    [TFire (Build_item 0%Z 0 0 MNormal); TFire (Build_item 0%Z 1 0 MNormal); TFlushB; TSnap;
-     TDisp (Build_item 0%Z 0 0 MNormal); TInv 0 0 1; TFire (Build_item 0%Z 2 1 MNormal); TFlushB;
-       TDisp (Build_item 0%Z 1 0 MNormal); TInv 1 0 2; TFire (Build_item 0%Z 3 1 MNormal); TFlushB; TSnap;
-         TDisp (Build_item 0%Z 2 1 MNormal); TInv 2 1 3; TRet 2 1; TDone 2;
-         TDisp (Build_item 0%Z 3 1 MNormal); TInv 3 1 3; TRet 3 1; TDone 3; TFlushE;
+  trace (runZ1 [(0, [Build_handler 0 0%Z [AFire 1 0%Z MNormal [0]; AFlush; AFlush]]); (1, [Build_handler 1 0%Z []])]
+              100 [AFire 0 0%Z MNormal [0]; AFire 0 0%Z MNormal [0]; AFlush]) =
+    [TFire (Build_item 0%Z 0 0 MNormal [0]); TFire (Build_item 0%Z 1 0 MNormal [0]); TFlushB; TSnap;
+     TDisp (Build_item 0%Z 0 0 MNormal [0]); TInv 0 0 1; TFire (Build_item 0%Z 2 1 MNormal [0]); TFlushB;
+       TDisp (Build_item 0%Z 1 0 MNormal [0]); TInv 1 0 2; TFire (Build_item 0%Z 3 1 MNormal [0]); TFlushB; TSnap;
+         TDisp (Build_item 0%Z 2 1 MNormal [0]); TInv 2 1 3; TRet 2 1; TDone 2;
+         TDisp (Build_item 0%Z 3 1 MNormal [0]); TInv 3 1 3; TRet 3 1; TDone 3; TFlushE;
        TFlushB; TSnap; TFlushE; TRet 1 0; TDone 1; TFlushE;
      TFlushB; TSnap; TFlushE; TRet 0 0; TDone 0; TFlushE].
 Proof. vm_compute. reflexivity. Qed.
@@ -180,7 +191,7 @@ Proof. vm_compute. reflexivity. Qed.
    the generator as a task and still breaks the handler loop; the priority-0 handler never runs and the
    action after the return is dead code *)
 Example C02_ex_stop_gen :
-  trace (runZ [(0, [Build_handler 0 0%Z []; Build_handler 1 3%Z [AStop; AGen; AFire 0 0%Z MNormal]])] 100 [AFire 0 0%Z MNormal; AFlush]) =
+  trace (runZ1 [(0, [Build_handler 0 0%Z []; Build_handler 1 3%Z [AStop; AGen; AFire 0 0%Z MNormal [0]]])] 100 [AFire 0 0%Z MNormal [0]; AFlush]) =
     [TFire e0; TFlushB; TSnap; TDisp e0; TInv 0 1 1; TStop 0 1; TGen 0 1; TRet 0 1; TDone 0; TFlushE].
 Proof. vm_compute. reflexivity. Qed.
 (* a raise does not end the handler loop nor the pass: handler 1 of event 0 raises, the dispatcher queues
@@ -188,15 +199,34 @@ Proof. vm_compute. reflexivity. Qed.
    event 3 is cancelled right after fire (popped, no handler), event 4 was stopped before its dispatch (only its
    highest-priority handler runs) *)
 Example C02_ex_raise_cancel_prestop :
-  trace (runZ [(0, [Build_handler 0 0%Z []; Build_handler 1 3%Z [ARaise [(98, 0%Z)]; AStop]]); (1, [Build_handler 2 0%Z []])]
-              200 [AFire 0 0%Z MNormal; AFire 1 0%Z MNormal; AFlush; AFire 0 0%Z MCancel; AFire 0 0%Z MPreStop; AFlush]) =
-    [TFire (Build_item 0%Z 0 0 MNormal); TFire (Build_item 0%Z 1 1 MNormal); TFlushB; TSnap;
-     TDisp (Build_item 0%Z 0 0 MNormal); TInv 0 1 1; TRaise 0 1; TFire (Build_item 0%Z 2 98 MNormal); TRet 0 1;
+  trace (runZ1 [(0, [Build_handler 0 0%Z []; Build_handler 1 3%Z [ARaise [(98, 0%Z, [0])]; AStop]]); (1, [Build_handler 2 0%Z []])]
+              200 [AFire 0 0%Z MNormal [0]; AFire 1 0%Z MNormal [0]; AFlush; AFire 0 0%Z MCancel [0]; AFire 0 0%Z MPreStop [0]; AFlush]) =
+    [TFire (Build_item 0%Z 0 0 MNormal [0]); TFire (Build_item 0%Z 1 1 MNormal [0]); TFlushB; TSnap;
+     TDisp (Build_item 0%Z 0 0 MNormal [0]); TInv 0 1 1; TRaise 0 1; TFire (Build_item 0%Z 2 98 MNormal [0]); TRet 0 1;
        TInv 0 0 1; TRet 0 0; TDone 0;
-     TDisp (Build_item 0%Z 1 1 MNormal); TInv 1 2 1; TRet 1 2; TDone 1; TFlushE;
-     TFire (Build_item 0%Z 3 0 MCancel); TFire (Build_item 0%Z 4 0 MPreStop); TFlushB; TSnap;
-     TDisp (Build_item 0%Z 2 98 MNormal); TDone 2;
-     TDisp (Build_item 0%Z 3 0 MCancel); TDone 3;
-     TDisp (Build_item 0%Z 4 0 MPreStop); TInv 4 1 1; TRaise 4 1; TFire (Build_item 0%Z 5 98 MNormal); TRet 4 1; TDone 4;
+     TDisp (Build_item 0%Z 1 1 MNormal [0]); TInv 1 2 1; TRet 1 2; TDone 1; TFlushE;
+     TFire (Build_item 0%Z 3 0 MCancel [0]); TFire (Build_item 0%Z 4 0 MPreStop [0]); TFlushB; TSnap;
+     TDisp (Build_item 0%Z 2 98 MNormal [0]); TDone 2;
+     TDisp (Build_item 0%Z 3 0 MCancel [0]); TDone 3;
+     TDisp (Build_item 0%Z 4 0 MPreStop [0]); TInv 4 1 1; TRaise 4 1; TFire (Build_item 0%Z 5 98 MNormal [0]); TRet 4 1; TDone 4;
      TFlushE].
 Proof. vm_compute. reflexivity. Qed.
+(* one event on the channels (0, 1): handler 0 (priority 1) listens on channel 0, handler 1 (priority 7) on
+   channel 1, handler 2 (priority 5) on both.  All three run once, by priority across the channels, for either
+   order of the channels; when handler 1 stops the event nothing else runs *)
+Definition mc_tbl (b1 : list (act Z)) : list (nat * list handlerZ) :=
+  [(0, [Build_handler 0 1%Z []; Build_handler 1 7%Z b1; Build_handler 2 5%Z []])].
+Definition mc_ord : list (nat * nat * list nat) := [(0, 0, [0; 2]); (0, 1, [2; 1])].
+Example C02_ex_multichannel :
+  invs 0 (trace (runZ (mc_tbl []) mc_ord 100 [AFire 0 0%Z MNormal [0; 1]; AFlush])) = [1; 2; 0] /\
+  invs 0 (trace (runZ (mc_tbl []) mc_ord 100 [AFire 0 0%Z MNormal [1; 0]; AFlush])) = [1; 2; 0] /\
+  invs 0 (trace (runZ (mc_tbl [AStop]) mc_ord 100 [AFire 0 0%Z MNormal [0; 1]; AFlush])) = [1].
+Proof. vm_compute. auto. Qed.
+(* the list as circuits computes it (sorted(chain(...)) without de-duplication) names handler 2 twice:
+   the defect recorded as finding C02-multichannel-twice *)
+Example C02_handlers_once_refuted : exists (tbl : list (nat * list handlerZ)) ord x,
+  ~ NoDup (map hid (handlers_raw Z Z.leb (hs_tbl tbl ord) x)).
+Proof.
+  exists (mc_tbl []), mc_ord, (Build_item 0%Z 0 0 MNormal [0; 1]). vm_compute.
+  intro N. inversion N as [|? ? N1 N2]; subst. inversion N2 as [|? ? N3 _]; subst. apply N3. left. reflexivity.
+Qed.
